@@ -212,3 +212,9 @@ var CurvedEmbeddings = []Emb{
 	{"scale1e4-transpose", 0, 1e4, 1e4, 0, 0, 0},
 	{"scale5e3-rot-3-4-5", 4e3, -3e3, 3e3, 4e3, 250.5, -100.25},
 }
+
+// NaturalEmbeddings: unit-scale embeddings for curved scenarios; the expectation then carries the flattening margin.
+var NaturalEmbeddings = []Emb{
+	{"id", 1, 0, 0, 1, 0, 0}, {"rot90", 0, -1, 1, 0, 0, 0}, {"flipx", -1, 0, 0, 1, 0, 0}, {"transpose", 0, 1, 1, 0, 0, 0},
+	{"rot-3-4-5", 0.8, -0.6, 0.6, 0.8, 0, 0}, {"translate", 1, 0, 0, 1, 1000.5, -333.25}, {"scale3", 3, 0, 0, 3, 0, 0},
+}
